@@ -123,6 +123,17 @@ CHECKS = {
         "sequence; recorded random histories from the real Set are accepted step by step by the trace specification with "
         "the contract invariants evaluated in every state. Histories, faults and configurations are exactly the quantifier of C16.",
    design_ref="DESIGN.md §5 C16", note=NOTE_TRUST),
+ "C14": dict(
+   technique="TLA+ JetCall (normal form <<callee, argument vector>> of every surface form; pipeline evaluation with call log; "
+             "count, two-slot and conversion contracts; table of documented built-ins) enumerated by TLC; every pipeline replayed "
+             "with recording callees of each kind, call log, result and errors compared; built-ins compared with the Go functions",
+   text="TLC enumerates pipelines of one to three stages over reflected functions (fixed, variadic), value and pointer methods and "
+        "a jet.Func, every surface form per stage with the slot at every index, and computes the call log the normal form "
+        "prescribes; the invariants say all spellings of a call agree and each stage is called once in order. The real library "
+        "must call the recording callees with exactly those argument vectors, render the chained result, report wrong counts and "
+        "two slots as errors, convert arguments per the table, and every documented built-in must return what the Go function it "
+        "exposes returns; the same parsed template re-executed with the callee rebound must call the new binding.",
+   design_ref="DESIGN.md §5 C14", note=NOTE_TRUST),
  "C15": dict(
    technique="TLA+ JetPath (Canon/ProbeCalls contract) model-checked by TLC; every TLC terminal state replayed "
              "against the real Set with recording Loader+Cache; recorded random lookups trace-validated by TLC (Trace_Path)",
